@@ -227,4 +227,96 @@ example :
       show st.size ≤ 1024
       omega
 
+/-! ### no stall on an empty queue — as a statement about EVERY reachable state (audit round)
+
+`C09_blocked_call_resumes` / `C09_call_after_drain_accepted` reach the empty queue through a *quiet* continuation (no
+frontend operation injected while the backend drains). The half of the property that is a safety statement — "a
+producer is never left waiting while its queue is empty; a dropping queue never rejects a fitting statement when its
+queue is empty" — needs no such premise: it holds in the state after **every** schedule (other threads logging,
+injections at every hook site, buffers of other contexts and even of this context still full), as soon as the
+caller's own queue holds nothing unread. The quiet continuation is only what the *progress* half ("after finitely many
+polls the queue is empty") is proved under. -/
+
+/-- **C09, safety half, every reachable state (blocking queue).** After any schedule `ops` from a thread-free initial
+    state, if actor `a` is parked on the retry of a refused reservation `st` that fits the capacity and its context's
+    queue holds nothing unread, the next iteration of the retry loop is granted: `st` is appended to what the queue
+    accepted and (for a `log` call) the call returns `ret=1`. -/
+theorem C09_empty_queue_retry_granted (s0 : BSt) (h0 : StartF s0) (ops : List Op) (a : Nat) (x : Actor) (st : Stmt)
+    (k : Nat) (hdp : s0.cfg.qp.drainPublish = true) (hblk : s0.cfg.dropping = false)
+    (hx : (runOps s0 ops).actor a = some x) (hp : x.pend = .retry st k) (hsz : st.size ≤ s0.cfg.qcap)
+    (hempty : ∀ i, x.ctx = some i → ((runOps s0 ops).th i).qStmts = []) :
+    ((resume (runOps s0 ops) a).1.th (ensureCtx (runOps s0 ops) a).2).accepted =
+      ((ensureCtx (runOps s0 ops) a).1.th (ensureCtx (runOps s0 ops) a).2).accepted ++
+        [{ st with enqAt := (runOps s0 ops).now }] ∧
+    (st.kind = .log → k = 0 ∨ k = 5 →
+      (resume (runOps s0 ops) a).2 = obsLog st k (some true) st.size ∧
+      pendOf (resume (runOps s0 ops) a).1 a = some .none) := by
+  have hgi := (start_GI h0.start).runOps ops
+  have hcfg := (start_GI h0.start).cfg_runOps ops
+  have hpub : ∀ i, Pub ((runOps s0 ops).th i) := fun i => readsCommitted_runOps h0.start hdp ops i
+  generalize runOps s0 ops = s2 at hgi hcfg hpub hx hempty ⊢
+  obtain ⟨fl, hI⟩ := hgi
+  have hd : ∀ i, x.ctx = some i → (s2.th i).qStmts = [] ∧ Pub (s2.th i) := fun i hi => ⟨hempty i hi, hpub i⟩
+  have hsz2 : st.size ≤ s2.cfg.qcap := by rw [hcfg]; exact hsz
+  have hres := resume_retry_blocking s2 a x st k hx hp (by rw [hcfg]; exact hblk)
+  obtain ⟨e1, e2⟩ := enqFlow_after_drain hI a x hx st hsz2 hd k false false
+  refine ⟨by rw [hres]; exact e2, fun hk hk' => ?_⟩
+  rw [hres, e1, afterEnq_log_obs _ a st hk k hk']
+  refine ⟨rfl, ?_⟩
+  obtain ⟨x1, hx1⟩ := ensureCtx_actor hx
+  exact pendOf_set_const _ a (fun x => { x with pend := .none }) (fun _ => rfl) (fun _ => rfl) .none (fun _ => rfl)
+    (x := x1) ((tryEnq_actor _ _ _ _).trans hx1)
+
+/-- **C09, safety half, every reachable state (either queue type — in particular the dropping one).** After any
+    schedule `ops`, a new `log` call of an actor that is not armed to stall, whose record fits the capacity and whose
+    context's queue holds nothing unread (or that has no context yet), is accepted: `ret=1`, never the `ret=0` of a
+    dropped statement, and the record is appended to what the queue accepted. -/
+theorem C09_empty_queue_call_accepted (s0 : BSt) (h0 : StartF s0) (ops : List Op) (a : Nat) (x : Actor)
+    (hdp : s0.cfg.qp.drainPublish = true) (hx : (runOps s0 ops).actor a = some x) (hst : x.stallArmed = false)
+    (hempty : ∀ i, x.ctx = some i → ((runOps s0 ops).th i).qStmts = [])
+    (lgi lvl len id : Nat) (dyn named : Bool) (k : Nat) (hk : k = 0 ∨ k = 5)
+    (hsz : stmtSize s0.cfg .log id len dyn ((runOps s0 ops).lgOf lgi).gid ≤ s0.cfg.qcap) :
+    ∃ st : Stmt, st.id = id ∧ st.kind = .log ∧
+      st.size = stmtSize s0.cfg .log id len dyn ((runOps s0 ops).lgOf lgi).gid ∧
+      (frontCall (runOps s0 ops) a lgi .log lvl len k dyn id named).2 = obsLog st k (some true) st.size ∧
+      ((frontCall (runOps s0 ops) a lgi .log lvl len k dyn id named).1.th (ensureCtx (runOps s0 ops) a).2).accepted =
+        ((ensureCtx (runOps s0 ops) a).1.th (ensureCtx (runOps s0 ops) a).2).accepted ++
+          [{ st with enqAt := (runOps s0 ops).now }] := by
+  have hgi := (start_GI h0.start).runOps ops
+  have hcfg := (start_GI h0.start).cfg_runOps ops
+  have hpub : ∀ i, Pub ((runOps s0 ops).th i) := fun i => readsCommitted_runOps h0.start hdp ops i
+  generalize runOps s0 ops = s2 at hgi hcfg hpub hx hempty hsz ⊢
+  obtain ⟨fl, hI⟩ := hgi
+  have hd : ∀ i, x.ctx = some i → (s2.th i).qStmts = [] ∧ Pub (s2.th i) := fun i hi => ⟨hempty i hi, hpub i⟩
+  let st : Stmt := { id := id, kind := .log, lg := lgi, lvl := lvl, ts := s2.now,
+                     size := stmtSize s2.cfg .log id len dyn (s2.lgOf lgi).gid, actor := a, named := named }
+  have hfc : frontCall s2 a lgi .log lvl len k dyn id named = enqFlow s2 a st k true := by
+    unfold Backend.frontCall
+    simp only [hx, Option.map_some, hst, Option.getD_some, Bool.false_eq_true, if_false]
+    rfl
+  have hsz2 : st.size ≤ s2.cfg.qcap := by
+    show stmtSize s2.cfg .log id len dyn (s2.lgOf lgi).gid ≤ s2.cfg.qcap
+    rw [hcfg]; exact hsz
+  obtain ⟨e1, e2⟩ := enqFlow_after_drain hI a x hx st hsz2 hd k true true
+  refine ⟨st, rfl, rfl, by show stmtSize s2.cfg .log id len dyn (s2.lgOf lgi).gid = _; rw [hcfg], ?_, ?_⟩
+  · rw [hfc, e1, afterEnq_log_obs _ a st rfl k hk]
+  · rw [hfc]; exact e2
+
+/-- a schedule that is **not** quiet and does not end drained: while thread 1 is parked on its 1009-byte retry, thread 2
+    starts and logs, one poll reads both queues but processes a single event, thread 2 logs again -/
+def c09Busy : List Op :=
+  c09Block ++ [.front (.tstart 2), .front (.log 2 0 4 10 true), .poll [], .front (.log 2 0 4 20 true)]
+
+/-- non-vacuity of `C09_empty_queue_retry_granted` on `c09Busy`: the schedule contains frontend operations after the
+    caller parked (`quietOp` fails), two events are still pending (one in thread 2's transit buffer, one in its queue),
+    yet thread 1's queue is empty with its reader position published, the hypotheses hold and the retry returns `ret=1` -/
+example :
+    c09Busy.all quietOp = false ∧ pendingCount (runOps (c09Init true) c09Busy) = 2 ∧
+    (runOps (c09Init true) c09Busy).actors.map (fun x => (x.pend matches .retry _ 0, x.ctx)) =
+      [(true, some 0), (false, some 1)] ∧
+    (runOps (c09Init true) c09Busy).ths.map (fun t => (t.buf.length, t.qStmts.length, t.q.rpos, t.q.wpos, t.q.rHist.headD 0)) =
+      [(0, 0, 47, 47, 47), (1, 1, 47, 104, 47)] ∧
+    (applyOp (runOps (c09Init true) c09Busy) (.front (.resume 1))).2 = "id=1 ret=1 ev=1 bytes=1009" := by
+  decide
+
 end Backend
